@@ -1,6 +1,7 @@
 import NdnProofs.Lemmas.Lvs.Sanity
 import NdnProofs.Lemmas.Lvs.Sem
 import NdnProofs.Lemmas.Lvs.Example
+import NdnProofs.Lemmas.Lvs.CtxFree
 /-!
 # C12 — the signing check holds exactly when the schema lets that key sign that packet
 
@@ -74,6 +75,22 @@ theorem check_key_must_match (m : Model) (hs : Sane m) (hv : VDet m) (env : FnEn
   rw [hk] at hk'; cases hk'
   exact hno σ kn σ' hkm
 
+/-- **check_key_must_match_alone.** When no constraint of the schema refers to another pattern (only
+    component values and user functions of literal arguments — `CtxFree`), a key name for which
+    `Checker.match` on its own finds no node is never accepted, whatever the packet.  (With constraints
+    that do refer to patterns bound by the packet, lvs.rst documents that a key rule may match *only* in
+    the context of the packet; then `check_key_must_match` above is the statement that holds.) -/
+theorem check_key_must_match_alone (m : Model) (hs : Sane m) (hv : VDet m) (hcf : CtxFree m)
+    (env : FnEnv) (henv : EnvTotal env) (pkt key k : List Bytes) (hk : dropDigest key = some k)
+    (hno : matchTree m env k m.startId [] = []) :
+    check m env pkt key ≠ .ok true := by
+  apply check_key_must_match m hs hv env henv pkt key k hk
+  intro σ n σ' hm
+  obtain ⟨σb', hp', _⟩ := path_weaken m hcf (pureOf env) hm [] (subCtx_nil σ)
+  have := matchTree_complete m env (edgeTotal_of_sane hs env henv) hv hp' Reach.start
+  rw [hno] at this
+  simp at this
+
 /-- a component whose type is ImplicitSha256Digest -/
 def IsDigest (d : Bytes) : Prop := ∃ sz, parseTlNum d 0 = .ok (1, sz)
 /-- a component of any other (readable) type -/
@@ -113,6 +130,16 @@ example : Sane model ∧ VDet model ∧ EnvTotal allFns :=
      rcases h1 with rfl | rfl <;> rcases h2 with rfl | rfl <;> simp_all [cD, cK] <;> (subst hv1; simp at hv2),
    fun _ => ⟨_, rfl, fun _ _ => ⟨true, rfl⟩⟩⟩
 
+open Example in
+example : CtxFree model ∧ matchTree model allFns [cK, cE] 0 [] = [] := by
+  refine ⟨?_, by decide⟩
+  intro n node hn pe hpe cl hcl o ho
+  have hlt : n < 5 := (List.getElem?_eq_some_iff.mp hn).1
+  have : n = 0 ∨ n = 1 ∨ n = 2 ∨ n = 3 ∨ n = 4 := by omega
+  rcases this with rfl | rfl | rfl | rfl | rfl <;> simp [model] at hn <;> subst hn <;> simp at hpe
+  · subst hpe; simp at hcl
+  · subst hpe; simp at hcl; subst hcl; simp at ho
+    rcases ho with rfl | rfl <;> exact Or.inl ⟨_, rfl⟩
 open Example in
 /-- `/k/a` may sign `/d/a` … -/
 example : check model allFns [cD, cA] [cK, cA] = .ok true := by rfl
